@@ -2,7 +2,7 @@
    get_gates / is_buffered_transition / the tests and updates of _rotamers are regenerated from
    enspara/geometry/rotamer.py on every run (Gen/RotamerGen.v); the specification is Model/Rotamer.v. *)
 From Coq Require Import List ZArith QArith Sorted.
-From EV Require Import RotamerBase RotamerGen Rotamer RotamerProofs.
+From EV Require Import RotamerBase RotamerGen Rotamer RotamerProofs TransitionsMore.
 From EV Require Import DisorderBase DisorderGen DisorderGenProofs.
 Import ListNotations.
 
@@ -60,6 +60,36 @@ Proof. exact transitions_per_trajectory. Qed.
 Print Assumptions c20_transitions_per_trajectory.
 
 (* Non-vacuity: a wide buffer on the phi set (the former defect D15) and a chi run through the seam. *)
+(* ---- what the reported frames say about the state sequence between them *)
+
+(* a reported frame has its successor inside the same trajectory; never more reports than adjacent pairs *)
+Theorem c20_transition_frames_in_range : forall row k, In k (transitions row) -> (S k < length row)%nat.
+Proof. exact transitions_bound. Qed.
+Print Assumptions c20_transition_frames_in_range.
+
+Theorem c20_transition_count_bound : forall row, (length (transitions row) <= pred (length row))%nat.
+Proof. exact transitions_length. Qed.
+Print Assumptions c20_transition_count_bound.
+
+(* the state sequence is a step function whose jumps are exactly the reported frames: two frames in
+   different states have a reported frame between them, and with none reported the states agree *)
+Theorem c20_state_changes_only_at_transitions : forall row d i j,
+  (i <= j)%nat -> (j < length row)%nat -> nth i row d <> nth j row d ->
+  exists k, (i <= k < j)%nat /\ In k (transitions row).
+Proof. exact state_changes_only_at_transitions. Qed.
+Print Assumptions c20_state_changes_only_at_transitions.
+
+Theorem c20_no_transition_same_state : forall row d j i,
+  (i <= j)%nat -> (j < length row)%nat -> (forall k, (i <= k < j)%nat -> ~ In k (transitions row)) ->
+  nth i row d = nth j row d.
+Proof. exact no_transition_same_state. Qed.
+Print Assumptions c20_no_transition_same_state.
+
+Theorem c20_nothing_reported_iff_constant : forall row d,
+  transitions row = [] <-> forall i j, (i < length row)%nat -> (j < length row)%nat -> nth i row d = nth j row d.
+Proof. exact transitions_nil_iff_constant. Qed.
+Print Assumptions c20_nothing_reported_iff_constant.
+
 Example c20_example :
   gen_rotamers [10#1; 300#1; 100#1; 200#1] hb_phi (100#1) = Some [0; 0; 0; 0]%Z /\
   gen_rotamers [350#1; 5#1; 130#1; 110#1; 100#1; 250#1] hb_chi (15#1) = Some [2; 2; 1; 1; 0; 2]%Z /\
